@@ -33,7 +33,7 @@ FEES = {"free": (F(0), F(0)), "paid": (F(1), F(1, 100)), "dy": (F(1), F(1, 16))}
 
 def model(name, contracts, ops, depth, fees="paid", bids=(8, 12), spreads=(0, 2), dqs=(-2, -1, 1, 2),
           lots=(), reqs=(), steps=(1,), rate=F(0), markup=F(0), deposit=F(1000),
-          refrule="carry", spotmult="applied", sublot="skip", invariants=(), properties=(), dyadic=False, maxrebal=99):
+          refrule="carry", spotmult="applied", sublot="skip", invariants=(), properties=(), dyadic=False, maxrebal=99, maxclk=99):
     cs = {c: CONTRACTS[c] for c in contracts}
     fixed, prop = FEES[fees]
     defs = {
@@ -48,7 +48,7 @@ def model(name, contracts, ops, depth, fees="paid", bids=(8, 12), spreads=(0, 2)
     # sets of functions / records need raw rendering (dicts are not hashable)
     defs["LotTargets"] = tlagen.Raw("{" + ", ".join(tlagen.tla(dict(t)) for t in lots) + "}")
     defs["Reqs"] = tlagen.Raw("{" + ", ".join(tlagen.tla(r) for r in reqs) + "}")
-    plain = {"RefRule": refrule, "SpotMult": spotmult, "SubLot": sublot, "MaxDepth": depth, "MaxRebal": maxrebal}
+    plain = {"RefRule": refrule, "SpotMult": spotmult, "SubLot": sublot, "MaxDepth": depth, "MaxRebal": maxrebal, "MaxClk": maxclk}
     return {
         "name": name,
         "module": tlagen.mc_module("MC", "Broker", defs),
